@@ -1,4 +1,4 @@
-(* GENERATED from Tree/InvProofsRemove.v by work/c03gen/gen.py: the same proof over NoOrphanP (no RootsOnly), see Tree/InvEBase.v *)
+(* GENERATED from Tree/InvProofsRemove.v by tools/c03_gen_invE.py: the same proof over NoOrphanP (no RootsOnly), see Tree/InvEBase.v *)
 (* Tree/InvProofsRemove.v — C03 proofs: remove_internal clears exactly the subtree; remove_sub_element(_kind). *)
 From Coq Require Import PeanoNat Arith.
 From AV Require Import Base.Bytes Base.Outcome Hash.HashModel Tree.Heap Tree.Ops Tree.Script Tree.Inv
